@@ -178,6 +178,118 @@ theorem range_error (B : Params ℝ) (fuel : ℕ) (e_kin r : ℝ) :
   · simp [h]
   · simp [h]
 
+
+/-! ## positivity, model-level Brillouin bound, the returned profile as a whole (session 4) -/
+
+/-- the generated `electron_velocity` is positive at a positive energy (proved here from the generated
+definition, so that this file does not depend on the proofs of C15) -/
+theorem ve_pos (E : ℝ) (hE : 0 < E) : 0 < electron_velocity E := by
+  have hm := Const.M_E_EV_pos; have hc := Const.C_L_pos
+  simp only [electron_velocity, lit_real, powN_real, Transc.sqrt_real, Nat.cast_one]
+  apply mul_pos hc; apply Real.sqrt_pos.mpr
+  have h1 : Const.M_E_EV / (Const.M_E_EV + E) < 1 := by rw [div_lt_one (by positivity)]; linarith
+  have h0 : 0 < Const.M_E_EV / (Const.M_E_EV + E) := by positivity
+  nlinarith
+
+/-- the characteristic potential is positive for a positive current and energy -/
+theorem cpot_pos (B : Params ℝ) (E : ℝ) (hI : 0 < B.cur) (hE : 0 < E) : 0 < cpot B E := by
+  rw [charPot_eq_spec]; unfold Spec.charPot
+  have hv := ve_pos E hE
+  have hP := Const.PI_pos; have hE0 := Const.EPS_0_pos
+  positivity
+
+theorem s1_pos (I b_d E : ℝ) (hI : 0 < I) (hb : b_d ≠ 0) (hE : 0 < E) : 0 < Spec.s1 I b_d E := by
+  unfold Spec.s1
+  have hv := ve_pos E hE
+  have hP := Const.PI_pos; have hE0 := Const.EPS_0_pos; have hM := Const.M_E_pos; have hQ := Const.Q_E_pos
+  have : 0 < b_d ^ 2 := by positivity
+  positivity
+
+theorem s2_nonneg (t_c r_c b_d : ℝ) (ht : 0 ≤ t_c) : 0 ≤ Spec.s2 t_c r_c b_d := by
+  unfold Spec.s2
+  have hK := Const.K_B_pos; have hM := Const.M_E_pos
+  positivity
+
+theorem s3_nonneg (b_c r_c b_d : ℝ) : 0 ≤ Spec.s3 b_c r_c b_d := by
+  unfold Spec.s3; positivity
+
+/-- **model-level**: the Herrmann radius computed by `herrmann_radius` is at least the Brillouin
+radius `√(2 s₁)` of the same beam at the same energy, and it is positive -/
+theorem herr_ge_brillouin (B : Params ℝ) (E : ℝ) (hI : 0 < B.cur) (hb : B.b_d ≠ 0) (hE : 0 < E) (ht : 0 ≤ B.t_c) :
+    Real.sqrt (2 * Spec.s1 B.cur B.b_d E) ≤ herr B E ∧ 0 < herr B E := by
+  have h1 := s1_pos B.cur B.b_d E hI hb hE
+  have hge : Real.sqrt (2 * Spec.s1 B.cur B.b_d E) ≤ herr B E := by
+    rw [herrmann_eq_spec]
+    exact herrmann_ge_brillouin _ _ _ h1.le (s2_nonneg _ _ _ ht) (s3_nonneg _ _ _)
+  refine ⟨hge, lt_of_lt_of_le ?_ hge⟩
+  exact Real.sqrt_pos.mpr (by linarith)
+
+/-- a state left by the loop body at a positive corrected energy has positive `φ₀` and `r_e` -/
+theorem consistent_pos (B : Params ℝ) (e_kin : ℝ) (s : LoopState ℝ) (hc : Consistent B e_kin s)
+    (hI : 0 < B.cur) (hb : B.b_d ≠ 0) (ht : 0 ≤ B.t_c) (hE : 0 < e_kin + s.old) : 0 < s.phi0 ∧ 0 < s.r_e := by
+  obtain ⟨h1, h2, _⟩ := hc
+  rw [h1, h2]
+  exact ⟨cpot_pos B _ hI hE, (herr_ge_brillouin B _ hI hb hE ht).2⟩
+
+/-- **the on-axis value of the returned profile is the loop's self-consistent value**:
+`space_charge_correction(e_kin, 0) = sc_on_ax_new` -/
+theorem correction_on_axis (B : Params ℝ) (fuel : ℕ) (e_kin : ℝ) (hd : 0 ≤ B.r_d)
+    (hc : Consistent B e_kin (loop B e_kin fuel init)) (hre : 0 < (loop B e_kin fuel init).r_e) :
+    correction B fuel e_kin 0 = some ((loop B e_kin fuel init).new, loop B e_kin fuel init) := by
+  unfold correction
+  simp only [lit_real, Nat.cast_zero, lt_irrefl, or_false, not_lt.mpr hd, if_false]
+  obtain ⟨_, _, h3⟩ := hc
+  rw [h3]
+  simp [multip, hre]
+
+/-- **the returned correction is negative inside the tube, zero at the tube and non-decreasing** -/
+theorem correction_profile (B : Params ℝ) (fuel : ℕ) (e_kin : ℝ)
+    (hphi : 0 < (loop B e_kin fuel init).phi0) (hre : 0 < (loop B e_kin fuel init).r_e)
+    (hed : (loop B e_kin fuel init).r_e < B.r_d) :
+    (∀ r, 0 ≤ r → r < B.r_d → ∃ v s, correction B fuel e_kin r = some (v, s) ∧ v < 0) ∧
+    (∃ s, correction B fuel e_kin B.r_d = some (0, s)) ∧
+    (∀ r1 r2 v1 v2 s1 s2, 0 ≤ r1 → r1 ≤ r2 → correction B fuel e_kin r1 = some (v1, s1) →
+        correction B fuel e_kin r2 = some (v2, s2) → v1 ≤ v2) := by
+  have hd : 0 < B.r_d := lt_trans hre hed
+  refine ⟨?_, ?_, ?_⟩
+  · intro r h0 hr
+    refine ⟨_, loop B e_kin fuel init, ?_, mul_neg_of_pos_of_neg hphi (profile_neg B _ r hre hed h0 hr)⟩
+    unfold correction
+    simp only [lit_real, Nat.cast_zero, not_lt.mpr hr.le, not_lt.mpr h0, or_self, if_false]
+  · refine ⟨loop B e_kin fuel init, ?_⟩
+    unfold correction
+    simp only [lit_real, Nat.cast_zero, lt_irrefl, not_lt.mpr hd.le, or_self, if_false]
+    rw [profile_zero_at_tube B _ hd hed.le, mul_zero]
+  · intro r1 r2 v1 v2 s1 s2 h0 h12 e1 e2
+    unfold correction at e1 e2
+    simp only [lit_real, Nat.cast_zero] at e1 e2
+    split_ifs at e1 e2
+    simp only [Option.some.injEq, Prod.mk.injEq] at e1 e2
+    rw [← e1.1, ← e2.1]
+    exact mul_le_mul_of_nonneg_left (profile_mono B _ hre hd r1 r2 h0 h12) hphi.le
+
+
+/-- **the returned estimate, all clauses together**: when the loop leaves at a positive corrected energy,
+`space_charge_correction(e_kin, 0)` is the loop's last value, that value is
+`φ₀(E+φ_old)·(2 ln(r_H(E+φ_old)/r_d) − 1)` with the generated `characteristic_potential` / `herrmann_radius`,
+it reproduces itself to 10⁻⁶ relative, and the stored beam radius is at least the Brillouin radius -/
+theorem correction_self_consistent (B : Params ℝ) (fuel : ℕ) (e_kin : ℝ)
+    (hI : 0 < B.cur) (hb : B.b_d ≠ 0) (ht : 0 ≤ B.t_c) (hd : 0 ≤ B.r_d)
+    (hne : (loop B e_kin fuel init).exhausted = false) (hE : 0 < e_kin + (loop B e_kin fuel init).old) :
+    correction B fuel e_kin 0 = some ((loop B e_kin fuel init).new, loop B e_kin fuel init) ∧
+    (loop B e_kin fuel init).new = cpot B (e_kin + (loop B e_kin fuel init).old) *
+        (2 * Real.log (herr B (e_kin + (loop B e_kin fuel init).old) / B.r_d) - 1) ∧
+    ((loop B e_kin fuel init).new - (loop B e_kin fuel init).old) / (loop B e_kin fuel init).new ≤ 1e-6 ∧
+    Real.sqrt (2 * Spec.s1 B.cur B.b_d (e_kin + (loop B e_kin fuel init).old)) ≤ (loop B e_kin fuel init).r_e ∧
+    0 < (loop B e_kin fuel init).phi0 := by
+  rcases fixed_point_partial B e_kin fuel with h | ⟨h1, h2, h3, h4⟩
+  · rw [hne] at h; exact absurd h (by simp)
+  · have hc : Consistent B e_kin (loop B e_kin fuel init) := ⟨h1, h2, h3⟩
+    have hp := consistent_pos B e_kin _ hc hI hb ht hE
+    refine ⟨correction_on_axis B fuel e_kin hd hc hp.2, ?_, h4, ?_, hp.1⟩
+    · rw [h3, h2, h1]
+    · rw [h1]; exact (herr_ge_brillouin B _ hI hb hE ht).1
+
 -- non-vacuity
 example : (0:ℝ) < 1e-4 ∧ (1e-4:ℝ) < 5e-3 ∧ (0:ℝ) ≤ 2e-4 ∧ (2e-4:ℝ) < 5e-3 := by norm_num
 end C20
